@@ -19,6 +19,7 @@ import random
 from harness import core
 
 NAN = -99
+PINF, NINF = -97, -96
 # how the *model of the code* (_trim) compares NaN with NaN.  True = `e == val or (isnan(e) and isnan(val))`
 # (the code since fix 4e18dc9).  If _trim ever falls back to the bare `e == val`, the cases with a listed NaN
 # fail with key trim:nan-never-excluded and DRIFT lines report that the scan no longer follows this model.
@@ -101,6 +102,29 @@ def fam_job(fam, mask, H, W, ys=None, xs=None, **kw):
         mode, dtype, lst = "crop", "int64", [1]
         kw = dict(kw, table=[2 ** 53, 2 ** 53 + 1, 2 ** 53 + 2])
         cell = lambda r, c, k: 1 if k else alt(r, c, 0, 2)
+    # ---- +inf / -inf cells are ordinary values: kept unless listed, also when NaN is listed
+    elif fam in ("inf_kept_default", "inf_kept_nan_tuple"):      # default values=(nan,) / explicit (nan,)
+        lst, kind = (None, "list") if fam == "inf_kept_default" else ([NAN], "tuple")
+        cell = lambda r, c, k: (PINF if (r + c) % 2 == 0 else (NINF if r % 2 else 1)) if k else NAN
+    elif fam == "inf_kept_0_nan":         # values=(0, nan)
+        lst, kind = [0, NAN], "tuple"
+        cell = lambda r, c, k: (NINF if (r + c) % 2 == 0 else (PINF if c % 2 else 2)) if k else alt(r, c, NAN, 0)
+    elif fam == "inf_listed":             # values=(inf,): +inf excluded; -inf, NaN and numbers kept
+        lst, kind = [PINF], "tuple"
+        cell = lambda r, c, k: (NINF if (r + c) % 2 == 0 else (NAN if r % 2 else 1)) if k else PINF
+    elif fam == "nan_inf_listed":         # values=(nan, inf): -inf still kept
+        lst, kind = [NAN, PINF], "tuple"
+        cell = lambda r, c, k: alt(r, c, NINF, 1) if k else alt(r, c, NAN, PINF)
+    # ---- integer zones with NEGATIVE labels (a -1 "no zone" border, -9999 nodata, the dtype minimum)
+    elif fam == "crop_negative_labels":   # ids [1, 2]; other cells -1 / -9999 / 0
+        mode, dtype, lst = "crop", "int64", [1, 2]
+        cell = lambda r, c, k: alt(r, c, 1, 2) if k else (-1 if (r + c) % 2 == 0 else (-9999 if r % 2 else 0))
+    elif fam == "crop_negative_min":      # ids (0, 3) on int32 zones; other cells -1 / int32 min / -2 / 1
+        mode, dtype, lst, kind = "crop", "int32", [0, 3], "tuple"
+        cell = lambda r, c, k: alt(r, c, 0, 3) if k else (-1 if (r + c) % 2 == 0 else ((-2 ** 31 if c % 2 else -2) if r % 2 else 1))
+    elif fam == "crop_negative_listed":   # ids [-1, 2]: a negative id IS requested; -2, 0, 1 are not
+        mode, dtype, lst = "crop", "int64", [-1, 2]
+        cell = lambda r, c, k: alt(r, c, -1, 2) if k else (-2 if (r + c) % 2 == 0 else (0 if r % 2 else 1))
     # ---- the same on UINT64 rasters: KNOWN FINDING - numba compares uint64 with the int64 list values in float64
     elif fam == "trim_u64_neighbours":
         dtype, lst = "uint64", [1]
@@ -123,7 +147,8 @@ def fam_job(fam, mask, H, W, ys=None, xs=None, **kw):
 
 FAMILIES = ["int_0", "float_default_nan", "float_nan_0", "float_0", "crop_1_2", "crop_2", "int_0_2"]
 # id lists with duplicates / gaps / absent / negative / float ids, and 64-bit neighbours of an excluded value
-FAMILIES2 = ["crop_dup_gap", "crop_unsorted_dup", "crop_7_5_5", "crop_absent_negative", "crop_float_ids",
+FAMILIES2 = ["inf_kept_default", "inf_kept_nan_tuple", "inf_kept_0_nan", "inf_listed", "nan_inf_listed",
+             "crop_negative_labels", "crop_negative_min", "crop_negative_listed", "crop_dup_gap", "crop_unsorted_dup", "crop_7_5_5", "crop_absent_negative", "crop_float_ids",
              "trim_i64_neighbours", "trim_i64_negative", "crop_i64_neighbours"]
 
 
@@ -318,14 +343,17 @@ def replay_jobs(rng, thorough):
                     continue
                 yield mark_proper(fam_job(fam, mask, H, W), mask)
             for fam in FAMILIES2:
-                # the special id lists / 64-bit families: every mask of the small grids, a seeded share of 3x4, 4x3
-                if (H, W) in mid and rng.random() >= (1 / 2 if thorough else 1 / 16):
+                # the special families: every mask of the grids with <= 6 cells; in the quick tier a seeded share of
+                # the larger ones (3x3: 1/4, 2x4 / 4x2: 1/8, 3x4 / 4x3: 1/32; thorough: all, resp. 1/2 of 3x4 / 4x3)
+                n = H * W
+                share = 1 if n <= 6 else ((1 / 2 if n == 12 else 1) if thorough else {9: 1 / 4, 8: 1 / 8, 12: 1 / 32}[n])
+                if share < 1 and rng.random() >= share:
                     continue
                 yield mark_proper(fam_job(fam, mask, H, W), mask)
     for mask in all_masks(4, 4):
         for fam in FAMILIES:
             # thorough: the full 4x4 mask space in the five main encodings; otherwise a seeded 1/64 sample
-            if (thorough and fam not in ("int_0_2", "crop_2")) or rng.random() < 1 / 64:
+            if (thorough and fam not in ("int_0_2", "crop_2")) or rng.random() < 1 / 128:
                 yield mark_proper(fam_job(fam, mask, 4, 4), mask)
     if thorough:
         for (H, W) in [(2, 7), (7, 2), (1, 10), (10, 1), (3, 5), (5, 3)]:
@@ -384,6 +412,8 @@ def run(ctx):
     mc(ctx, "trim_nan_2x3", 2, 3, [0, 1, NAN], nanlists + [[0, 1]], "trim")
     # crop: id lists incl. duplicates with a gap (zone 2 is NOT requested by (1, 1, 3))
     mc(ctx, "crop_2x3", 2, 3, [0, 1, 2, 3], [[1], [2, 1], [1, 1, 3], [3, 1, 3]], "crop")
+    # +inf is an ordinary value: excluded only when listed (also next to a listed NaN)
+    mc(ctx, "trim_inf_2x3", 2, 3, [1, NAN, PINF], [[NAN], [PINF], [NAN, PINF], [1, NAN]], "trim")
     mc(ctx, "crop_nan_zones_2x2", 2, 2, [0, 1, 2, NAN], [[1], [1, 2]], "crop")
     if thorough:
         mc(ctx, "trim_4x4", 4, 4, [0, 1], [[0]], "trim", live=False)
